@@ -731,10 +731,21 @@ func parseContractLines(lines []rawLine, pkg string) ([]*FuncContract, error) {
 			if curLoop == nil {
 				return nil, fmt.Errorf("%s:%d: %s outside loop", l.file, l.line, kw)
 			}
+			tag := ""
+			if strings.HasPrefix(rest, "{") {
+				// invariant {C07,C08} expr — an invariant that only these properties' checks use (check and assume)
+				j := strings.Index(rest, "}")
+				if j < 0 {
+					return nil, fmt.Errorf("%s:%d: unterminated property tag", l.file, l.line)
+				}
+				tag = strings.ReplaceAll(rest[1:j], " ", "")
+				rest = strings.TrimSpace(rest[j+1:])
+			}
 			c, err := mkClause(rest, l)
 			if err != nil {
 				return nil, err
 			}
+			c.Tag = tag
 			switch kw {
 			case "invariant":
 				curLoop.Invariants = append(curLoop.Invariants, c)
